@@ -45,6 +45,8 @@ def _make_inputs_factory(c, info, ctx):
             env[kwarg] = c.params.get(kwarg, {})
             if isinstance(env[kwarg], str):
                 env[kwarg] = make_value(ex, env[kwarg], kwarg, {**senv, **env})
+            elif isinstance(env[kwarg], dict):
+                env[kwarg] = {k: (make_value(ex, v, k, {**senv, **env}) if isinstance(v, str) else v) for k, v in env[kwarg].items()}
         if vararg:
             env[vararg] = ()
         for k, v in ctx.sizes.items():
@@ -59,7 +61,7 @@ def verify_function(qualname, options=None, timeout_ms=10000, repo_root=None):
     repo = Repo(repo_root)
     reg = load_all()
     c = reg.get(qualname)
-    info = repo.get_function(qualname)
+    info = repo.get_function(qualname.split("@")[0])
     res = {"function": qualname, "status": "ok", "obligations": [], "paths": 0, "trusted": [], "seconds": 0.0,
            "file": None, "line": None, "sha256": None, "callees_assumed": [], "finite": options.get("finite")}
     if info is None:
